@@ -112,7 +112,10 @@ func run(j job, g int32, yseed uint64) (out []byte, err error) {
 			err = fmt.Errorf("panic: %v", p)
 		}
 	}()
-	props := &lzma.Properties{LC: j.LC, LP: j.LP, PB: j.PB}
+	// the Properties value is shared (one pointer per lc/lp/pb for the whole process, as a
+	// program with a package-level configuration would have it): the library must treat what
+	// the configuration points to as read-only
+	props := sharedProps(j.LC, j.LP, j.PB)
 	switch j.Kind {
 	case "xzW", "lzmaW", "lzma2W":
 		data := gen.Data(prng.New(j.Seed, 1), j.Family, j.N)
@@ -185,6 +188,20 @@ func run(j job, g int32, yseed uint64) (out []byte, err error) {
 		return io.ReadAll(r)
 	}
 }
+
+var propsTable [9][5][5]*lzma.Properties
+
+func init() {
+	for lc := range propsTable {
+		for lp := range propsTable[lc] {
+			for pb := range propsTable[lc][lp] {
+				propsTable[lc][lp][pb] = &lzma.Properties{LC: lc, LP: lp, PB: pb}
+			}
+		}
+	}
+}
+
+func sharedProps(lc, lp, pb int) *lzma.Properties { return propsTable[lc][lp][pb] }
 
 func newWriter(j job, props *lzma.Properties, sink io.Writer) (w io.WriteCloser, err error) {
 	switch j.Kind {
@@ -405,6 +422,15 @@ func main() {
 		if d.j.Kind[len(d.j.Kind)-1] == 'R' {
 			want := gen.Data(prng.New(d.j.Seed, 1), d.j.Family[5:], 0)
 			_ = want
+		}
+	}
+	for lc := range propsTable {
+		for lp := range propsTable[lc] {
+			for pb, p := range propsTable[lc][lp] {
+				if p.LC != lc || p.LP != lp || p.PB != pb {
+					res.Mismatch = append(res.Mismatch, fmt.Sprintf("the shared Properties value for lc%d lp%d pb%d was modified by the library: now %+v", lc, lp, pb, *p))
+				}
+			}
 		}
 	}
 	res.Configs = len(cfgs)
